@@ -109,3 +109,30 @@ def oracle(case, items):
 def extra_coverage():
     return {"tuples_executed": _counts["tuples"], "entry_points": _counts["entries"],
             "tuples_that_must_be_rejected": _counts["rejected"], "tuples_that_must_be_accepted": _counts["accepted"]}
+
+# ---- source audit: the value model's assumption "an operand behind `&` cannot be modified" holds for safe Rust without
+# interior mutability; any `unsafe`, raw pointer, Cell/RefCell/atomic or `static mut` in the crate voids it.
+AUDIT = re.compile(r"\b(unsafe|UnsafeCell|RefCell|Cell\s*<|static\s+mut|transmute|\*mut\s|Atomic[A-Z][A-Za-z0-9]*|Mutex|RwLock)\b")
+
+def extra_checks(exe, rng, tier):
+    import translate
+    found, nfiles = [], 0
+    for root, _, files in os.walk(os.path.join(REPO, "src")):
+        for fn in sorted(files):
+            if not fn.endswith(".rs"): continue
+            path = os.path.join(root, fn)
+            src = open(path).read()
+            if fn == "verif_hooks.rs":          # the cfg(ohsl_verif) recording hook (compiled out without the flag)
+                continue
+            nfiles += 1
+            body = translate.strip_rust_comments(src)
+            # lines guarded by #[cfg(ohsl_verif)] belong to the hook
+            body = re.sub(r"#\[cfg\(ohsl_verif\)\][^\n]*\n[^\n]*\n", "\n", body)
+            for m in AUDIT.finditer(body):
+                line = body.count("\n", 0, m.start()) + 1
+                found.append("%s:%d: %s" % (os.path.relpath(path, REPO), line, m.group(0)))
+    ev = []
+    if found:
+        ev.append(("tie", "source audit: constructs that let a `&` operand be modified (unsafe / interior mutability) appeared: " + "; ".join(found[:6]),
+                   {"audit": found[:20]}))
+    return ev, {"source_audit": {"files": nfiles, "unsafe_or_interior_mutability_sites": len(found)}}
